@@ -474,6 +474,12 @@ func summarise(c *core.Ctx, s *c20side, recv ssa.Value, p *paths.Path) *pathFact
 				r.terms[find("len:"+valID(e.Resolve(x.Call.Args[0])))] = 1
 				return r
 			}
+			// binary.Size(v) of a fixed-width integer: the number of octets binary.Write emits for it
+			if cal := x.Call.StaticCallee(); cal != nil && cal.Pkg != nil && cal.Pkg.Pkg.Path() == "encoding/binary" && cal.Name() == "Size" && len(x.Call.Args) == 1 {
+				if sz := staticSize(e, x.Call.Args[0]); sz > 0 {
+					return newLin(int64(sz))
+				}
+			}
 		}
 		r := newLin(0)
 		r.terms[find("v:"+valID(v))] = 1
@@ -570,6 +576,9 @@ func summarise(c *core.Ctx, s *c20side, recv ssa.Value, p *paths.Path) *pathFact
 				switch {
 				case isRecvField(e, x.Addr, s.errField):
 					if paths.IsNilConst(x.Val) {
+						if f.state != nNil {
+							f.problems = append(f.problems, "the error field is cleared on a path where it was not tested nil: an error recorded by an earlier operation is lost and later operations proceed")
+						}
 						f.state = nNil
 						f.effects = append(f.effects, "a reset of the error")
 					} else {
@@ -830,10 +839,15 @@ func helperCoverage(c *core.Ctx, s *c20side, methods map[string]*types.Func) {
 			for _, b := range f.Blocks {
 				for _, ins := range b.Instrs {
 					if call, ok := ins.(*ssa.Call); ok {
-						if cal := call.Call.StaticCallee(); cal != nil && cal.Signature.Recv() != nil && namedOfType(cal.Signature.Recv().Type()) == s.named {
+						cal := call.Call.StaticCallee()
+						if cal != nil && cal.Signature.Recv() != nil && namedOfType(cal.Signature.Recv().Type()) == s.named {
 							if obj, ok := cal.Object().(*types.Func); ok {
 								called[obj] = true
 							}
+							walk(cal, d+1)
+						} else if cal != nil && cal.Signature.Recv() == nil && cal.Pkg == f.Pkg && cal.Blocks != nil && (cal.Object() == nil || !cal.Object().Exported()) {
+							// an unexported function of the package standing between the method and its helper (a generic
+							// readUnsigned[T](p) shared by the four widths): the path rules inline it like a helper method
 							walk(cal, d+1)
 						}
 					}
